@@ -81,6 +81,30 @@ fn variants(r: &mut Rng, t: u64) -> Vec<(String, Option<Value>, Option<Value>, E
         d = d * 3 + r.below(d);
     }
     v.push(("exp-past-10y".into(), Some(json!(t - 10 * YEAR)), None, Expect::Reject("exp")));
+    // "round" instants: the most recent full minute / hour / UTC midnight / week boundary and the one
+    // before it (day- or hour-granular leniency would show here), whenever they are >= 120 s ago
+    for m in [60u64, 3600, 86_400, 604_800] {
+        for k in 0..3u64 {
+            let inst = t - t % m - k * m;
+            if t - inst >= 120 {
+                v.push((format!("exp-past-round-{m}x{k}"), Some(json!(inst)), None, Expect::Reject("exp")));
+                v.push((format!("exp-past-round-{m}x{k}-minus1"), Some(json!(inst - 1)), None, Expect::Reject("exp")));
+            }
+            let ahead = t - t % m + (k + 1) * m;
+            if ahead - t >= 120 {
+                v.push((format!("nbf-future-round-{m}x{k}"), Some(json!(ahead + 10 * YEAR)), Some(json!(ahead)), Expect::Reject("nbf")));
+            }
+        }
+    }
+    // inside the guard band nothing is asserted about accept / reject, but the call must still return
+    for d in [0u64, 1, 30, 59, 60, 61, 119] {
+        v.push((format!("exp-near-now-minus-{d}s"), Some(json!(t - d)), None, Expect::NotAsserted));
+        v.push((format!("exp-near-now-plus-{d}s"), Some(json!(t + d)), None, Expect::NotAsserted));
+        v.push((format!("nbf-near-now-plus-{d}s"), Some(json!(t + 7200)), Some(json!(t + d)), Expect::NotAsserted));
+    }
+    // numeric nbf in the past in other spellings than an unsigned integer
+    v.push(("nbf-past-float".into(), Some(json!(t + 7200)), Some(json!((t - 5000) as f64 + 0.5)), Expect::Accept));
+    v.push(("nbf-past-float-integral".into(), Some(json!(t + 7200)), Some(json!((t - 86_400) as f64)), Expect::Accept));
     v.push(("exp-past-float".into(), Some(json!((t - 1000 - r.below(100_000)) as f64 + 0.5)), None, Expect::Reject("exp")));
     // an expired token stays rejected whatever nbf says
     v.push(("exp-past-nbf-past".into(), Some(json!(t - 3600)), Some(json!(t - 7200)), Expect::Reject("exp")));
@@ -253,6 +277,38 @@ fn one_case(ctx: &Ctx, case: u64, l: &mut Local) {
                 detail: detail(),
             }),
             (Expect::NotAsserted, o) => l.count(&format!("not-asserted.{}.{}", name, o.class())),
+        }
+    }
+    // ---- exp absent from the signed payload but "supplied" by a referenced top-level disclosure:
+    // the validity window is what the issuer SIGNED in clear; must be refused
+    {
+        let mut p = base.clone();
+        p.remove("exp");
+        p.remove("nbf");
+        let fut = t0 + 7200 + r.below(YEAR);
+        let d_exp = crate::model::b64e(json!(["salt-c09", "exp", fut]).to_string().as_bytes());
+        let mut sdl = p.get("_sd").and_then(Value::as_array).cloned().unwrap_or_default();
+        sdl.push(json!(crate::model::digest_of(&d_exp)));
+        p.insert("_sd".into(), Value::Array(sdl));
+        p.entry("_sd_alg").or_insert(json!("sha-256"));
+        let jwt = api::sign_payload(cfg.alg, 0, &Value::Object(p), None);
+        let mut ds = issued.parts.disclosures.clone();
+        ds.insert(r.usize(ds.len() + 1), d_exp);
+        let sd = Parts { jwt, disclosures: ds, kb: None };
+        if let Some(enc) = sd.encode(fmt, 0) {
+            let v = api::verify(&enc, &resolver, None, fmt);
+            l.evals += 1;
+            match &v.out {
+                pn @ Outcome::Panic(..) => l.violate(Violation { subcheck: "panic".into(), class: "exp only as a disclosure".into(), observed: pn.panic_signature().unwrap(), case, detail: json!({"config": cfg.describe()}) }),
+                Outcome::Ok(_) => l.violate(Violation {
+                    subcheck: "accepted-outside-window-exp".into(),
+                    class: "exp absent from the signed payload, supplied by a disclosure".into(),
+                    observed: "Ok".into(),
+                    case,
+                    detail: json!({"config": cfg.describe(), "disclosed_exp": fut, "t": t0}),
+                }),
+                Outcome::Err(_) => l.count("must-reject.exp.rejected"),
+            }
         }
     }
     // ---- a temporal claim written TWICE in the signed payload text (RFC 7519 §4: reject, or use the
